@@ -941,6 +941,28 @@ class Interp:
             for t, v in zip(target.elts, items):
                 self.assign(t, v, env)
         elif isinstance(target, ast.Subscript):
+            if isinstance(target.value, ast.Attribute) and target.value.attr in ("real", "imag"):
+                owner = self.eval(target.value.value, env)
+                if isinstance(owner, np.ndarray):
+                    # numpy's .real / .imag are views of a complex array: a store through them rewrites that part in place
+                    idx = self.eval_index(target.slice, env)
+                    part = target.value.attr
+                    sub = owner[idx]
+                    newv = val if isinstance(val, np.ndarray) else None
+
+                    def mix(old, v):
+                        old = S(old)
+                        return (S(v) + sp.I * sp.im(old)) if part == "real" else (sp.re(old) + sp.I * S(v))
+
+                    if isinstance(sub, np.ndarray):
+                        flat_new = list(np.broadcast_to(newv, sub.shape).ravel()) if newv is not None else [val] * sub.size
+                        out = obj_array(sub.shape, 0)
+                        for pos, (o, v) in enumerate(zip(sub.ravel(), flat_new)):
+                            out.ravel()[pos] = mix(o, v)
+                        owner[idx] = out.reshape(sub.shape)
+                    else:
+                        owner[idx] = mix(sub, val)
+                    return
             base = self.eval(target.value, env)
             if isinstance(base, dict):
                 base[_hash(self.eval(target.slice, env))] = val
